@@ -156,7 +156,8 @@ def run_world(plan, world=None):
       ping = None
       if pings is not None:
         ping = lambda k, pings=pings: (['pong', 0.0005] if (k >= len(pings) or pings[k]) else ['ignore'])
-      peer = MuxPeer(pf, respond, script_mux, ping=ping)
+      peer = MuxPeer(pf, respond, script_mux, ping=ping,
+                     reply_contexts=((b'k', b'v'), (b'', b'\xe2\x82\xac')) if plan.get('reply_contexts') else ())
     cs = [[c[0]] + [x / 1000.0 for x in c[1:]] for c in (sp.get('connect') or [])]
     srv = Server(net, (HOST, port), peer, cs)
     if sp.get('connect_default'):
